@@ -1,4 +1,5 @@
 import Utv.Lemmas.C10Call
+import Utv.Lemmas.C10Fuel
 /-!
 C10 — collecting errors changes reporting only, never the verdict or the value.
 
@@ -321,6 +322,25 @@ theorem C10_call_accept_iff_none_fails (W : World) (fuel : Nat) (sg : Sig) (o : 
       · rw [h1 i] at hi; cases hi
       · rw [h2] at hg; cases hg
 
+/-! ### fuel
+
+Every theorem above is stated for every fuel; at fuel 0 (and whenever the fuel is smaller than the depth of a
+type) the model parser fails everything and the statements are true but say little.  The two theorems below
+make the fuel-independent reading precise: from `fuel ≥ depth` on, nothing depends on the fuel.  `Fits` excludes
+the one construct whose recursion depth follows the value instead of the type (a fixed tuple converting its
+surplus items with a typed `addition` option). -/
+
+/-- With fuel at least the depth of the type, the model parser is the fuel-independent one. -/
+theorem C10_fuel_adequate (W : World) (T : Ty) (c : Ctx) (v : Val) (hf : Fits c.o T) (fuel : Nat)
+    (hn : T.depth ≤ fuel) : parse W fuel T c v = parse W T.depth T c v :=
+  parse_fuel_adequate W T c v hf fuel hn
+
+/-- With fuel at least the depth of the declared types, a run of a declaration does not depend on the fuel. -/
+theorem C10_run_fuel_adequate (W : World) (decl : List FieldDecl) (m : Mode) (o : Opts) (data : Data)
+    (hf : ∀ T ∈ declTypes decl o, Fits o T) (fuel : Nat) (hn : declDepth decl o ≤ fuel) :
+    run W fuel decl m o data = run W (declDepth decl o) decl m o data :=
+  run_fuel_adequate W decl m o data hf fuel hn
+
 /-! ### the code before the `fix:` commit (AllOf returned without `raise_error()`)
 
 `C10_same_verdict` is false of `runLegacy`: a conjunction whose second argument rejects the value is
@@ -381,6 +401,22 @@ example :
     errOf (runCall legacyWorld 3 { decl := demoDecl, npos := 3, hasVar := true, posTy := some (.leaf 1) }
         ⟨true, none⟩ {} [.atom "1", .atom "2", .atom "3", .atom "4"] [])
       = some (.collected [{ kind := .parse, item := some "a" }, { kind := .parse, item := some "*args:3" }]) := by
+  decide
+
+/-- the fuel hypotheses are satisfiable: `demoDecl` has depth 1, its options fit -/
+example : declDepth demoDecl {} = 1 ∧ ∀ T ∈ declTypes demoDecl {}, Fits {} T := by
+  refine ⟨by decide, ?_⟩
+  intro T _
+  exact Or.inl rfl
+
+/-- errors of the whole mapping: too many keys, and a demanded dependency that is not given — reported once each,
+without an item, next to the item errors -/
+example :
+    errOf (run legacyWorld 3
+        [{ name := "a", ty := some (.leaf 0), required := false, default := none, onError := none, deps := ["b"] },
+         { name := "b", ty := some (.leaf 0), required := false, default := none, onError := none }]
+        ⟨true, none⟩ { addition := .no, maxParams := some 1 } [("a", .atom "1"), ("zz", .atom "2")])
+      = some (.collected [{ kind := .paramsExceed }, { kind := .depsAbsence }, { kind := .exceed, item := some "zz" }]) := by
   decide
 
 end Utv.C10
